@@ -23,6 +23,17 @@
 (* tensors it has absorbed (generic data: two values are equal iff these   *)
 (* sets are equal); it is exact iff inc[m] = up[m].  `oset.pop()` order is *)
 (* left open: TLC explores every pop order.                                *)
+(*                                                                         *)
+(* Damping (Lag > 1): an update moves a message only part of the way to    *)
+(* its target f(inputs); it needs Lag updates with an unchanged target to  *)
+(* be there (within tol).  tgt[m] is the target of the last update, lag[m] *)
+(* the number of updates still missing, inc[m] what m certainly contains.  *)
+(* mdiff > tol ("moved") iff the message was not at the new target.  The   *)
+(* code marks the READERS of a moved message, never the message itself:    *)
+(* with local convergence a damped message is left part of the way (known  *)
+(* finding KF-C14-4, configuration MC_damped.cfg must fail); Repair = TRUE *)
+(* also re-marks the moved message (MC_damped_repaired.cfg must pass).     *)
+(* Lag = 1 is the undamped algorithm: tgt = inc and lag = 0 throughout.    *)
 (***************************************************************************)
 EXTENDS C14_Defs, Json
 
@@ -30,6 +41,8 @@ CONSTANTS Trees,      \* sequence of [n |-> k, E |-> set of 2-sets over 1..k, hy
           Flavs,      \* subset of {"key", "tid", "hyper"}
           MaxIter,
           SeqMaxUnits,\* sequential sweeps are explored for at most this many scheduling units (pop orders grow fast)
+          Lag,        \* 1: no damping; 2: a damped message needs one more update with the same inputs
+          Repair,     \* TRUE: a moved damped message is marked for the next round itself
           Record,     \* TRUE: keep a history for replay (simulation only)
           Bug         \* "none"; self-tests of the model (must violate an invariant):
                       \* "marksrc"   a changed message marks its sender instead of its receiver (tid flavour)
@@ -37,13 +50,13 @@ CONSTANTS Trees,      \* sequence of [n |-> k, E |-> set of 2-sets over 1..k, hy
 
 VARIABLES G,        \* GraphInfo of the chosen tree (constant along a behaviour)
           opt,      \* [tree, flav, mode, lc, init, first]
-          inc, touched, newt, phase, iter, conv, chg, skipped, obs, pops, hist
-vars == <<G, opt, inc, touched, newt, phase, iter, conv, chg, skipped, obs, pops, hist>>
-view == <<opt, inc, touched, newt, phase, iter, conv, chg, skipped, obs>>
+          inc, tgt, lag, touched, newt, phase, iter, conv, chg, skipped, obs, pops, hist
+vars == <<G, opt, inc, tgt, lag, touched, newt, phase, iter, conv, chg, skipped, obs, pops, hist>>
+view == <<opt, inc, tgt, lag, touched, newt, phase, iter, conv, chg, skipped, obs>>
 
 Tree == Trees[opt.tree]
 Kind(a) == Tree.kind[a]
-Exact(m) == inc[m] = G.up[m]
+Exact(m) == inc[m] = G.up[m] /\ lag[m] = 0
 AllExact == \A m \in G.msgs : Exact(m)
 OutOf(a) == {m \in G.msgs : m[1] = a}
 Into(a) == {m \in G.msgs : m[2] = a}
@@ -52,7 +65,14 @@ Into(a) == {m \in G.msgs : m[2] = a}
 AllUnits == IF opt.flav = "tid" THEN G.nodes ELSE G.msgs
 MsgsOfUnit(u) == IF opt.flav = "tid" THEN OutOf(u) ELSE {u}
 \* what a changed message marks for the next round
-Marks(m) == IF opt.flav = "tid" THEN (IF Bug = "marksrc" THEN {m[1]} ELSE {m[2]}) ELSE TouchMap(G, m)
+Marks(m) == (IF opt.flav = "tid" THEN (IF Bug = "marksrc" THEN {m[1]} ELSE {m[2]}) ELSE TouchMap(G, m))
+            \cup (IF Repair /\ Lag > 1 THEN (IF opt.flav = "tid" THEN {m[1]} ELSE {m}) ELSE {})
+
+\* one update of m reading the messages src: <<inc, tgt, lag, moved>>
+Upd(src, m) ==
+  LET t == StepInc(G, src, m)
+      l == IF t # tgt[m] THEN Lag - 1 ELSE Max2(lag[m] - 1, 0)
+  IN  [inc |-> IF l = 0 THEN t ELSE inc[m], tgt |-> t, lag |-> l, moved |-> (t # tgt[m] \/ lag[m] > 0)]
 Scheduled(m, T) == IF opt.flav = "tid" THEN m[1] \in T ELSE m \in T
 
 \* initial messages.  default: the tensor with all other legs summed (one layer); custom / ones: nothing.
@@ -82,7 +102,7 @@ HistRec == [pops |-> pops, exact |-> {m \in G.msgs : Exact(m)}, touched |-> touc
 Init ==
   /\ opt \in {o \in Opts : GoodOpt(o)}
   /\ G = GraphInfo(1..Trees[opt.tree].n, Trees[opt.tree].E)
-  /\ inc = InitInc(G, opt)
+  /\ inc = InitInc(G, opt) /\ tgt = inc /\ lag = [m \in G.msgs |-> 0]
   /\ touched = {} /\ newt = {} /\ phase = "idle" /\ iter = 0 /\ conv = FALSE /\ chg = FALSE
   /\ skipped = FALSE /\ obs = [k |-> "none"] /\ pops = <<>>
   /\ hist = IF Record THEN <<[pops |-> <<>>, exact |-> {m \in G.msgs : inc[m] = G.up[m]}, touched |-> {}, iter |-> 0, conv |-> FALSE]>>
@@ -96,18 +116,19 @@ BeginIter ==
      /\ skipped' = (~all /\ touched # AllUnits)
   /\ phase' = IF opt.mode = "seq" THEN "sweep" ELSE "par"
   /\ newt' = {} /\ chg' = FALSE /\ obs' = [k |-> "none"] /\ pops' = <<>>
-  /\ UNCHANGED <<G, opt, inc, iter, conv, hist>>
+  /\ UNCHANGED <<G, opt, inc, tgt, lag, iter, conv, hist>>
 
 \* sequential: one pop.  All outgoing messages of a tensor read only incoming ones, so for "tid"
 \* computing them together from the current state is what _compute_ms does.
 UpdateSequential(u) ==
   /\ phase = "sweep" /\ u \in touched
-  /\ LET ms  == MsgsOfUnit(u)
-         new == [m \in ms |-> StepInc(G, inc, m)]
-         changed == {m \in ms : new[m] # inc[m]}
-     IN /\ inc' = [m \in G.msgs |-> IF m \in ms THEN new[m] ELSE inc[m]]
-        /\ newt' = newt \cup UNION {Marks(m) : m \in changed}
-        /\ chg' = (chg \/ changed # {})
+  \* (bound through singleton sets: TLC re-evaluates LET definitions at every use inside an action)
+  /\ \E ms \in {MsgsOfUnit(u)} : \E new \in {[m \in ms |-> Upd(inc, m)]} : \E moved \in {{m \in ms : new[m].moved}} :
+        /\ inc' = [m \in G.msgs |-> IF m \in ms THEN new[m].inc ELSE inc[m]]
+        /\ tgt' = [m \in G.msgs |-> IF m \in ms THEN new[m].tgt ELSE tgt[m]]
+        /\ lag' = [m \in G.msgs |-> IF m \in ms THEN new[m].lag ELSE lag[m]]
+        /\ newt' = newt \cup UNION {Marks(m) : m \in moved}
+        /\ chg' = (chg \/ moved # {})
   /\ touched' = touched \ {u}
   /\ pops' = IF Record THEN Append(pops, u) ELSE pops
   /\ UNCHANGED <<G, opt, phase, iter, conv, skipped, obs, hist>>
@@ -115,12 +136,13 @@ UpdateSequential(u) ==
 \* parallel: everything touched is computed from the old messages, then inserted
 UpdateParallel ==
   /\ phase = "par"
-  /\ LET ms  == UNION {MsgsOfUnit(u) : u \in touched}
-         new == [m \in ms |-> StepInc(G, inc, m)]
-         changed == {m \in ms : new[m] # inc[m]}
-     IN /\ inc' = [m \in G.msgs |-> IF m \in ms THEN new[m] ELSE inc[m]]
-        /\ newt' = UNION {Marks(m) : m \in changed}
-        /\ chg' = (changed # {})
+  /\ \E ms \in {UNION {MsgsOfUnit(u) : u \in touched}} : \E new \in {[m \in ms |-> Upd(inc, m)]} :
+     \E moved \in {{m \in ms : new[m].moved}} :
+        /\ inc' = [m \in G.msgs |-> IF m \in ms THEN new[m].inc ELSE inc[m]]
+        /\ tgt' = [m \in G.msgs |-> IF m \in ms THEN new[m].tgt ELSE tgt[m]]
+        /\ lag' = [m \in G.msgs |-> IF m \in ms THEN new[m].lag ELSE lag[m]]
+        /\ newt' = UNION {Marks(m) : m \in moved}
+        /\ chg' = (moved # {})
   /\ touched' = {} /\ phase' = "sweep"
   /\ UNCHANGED <<G, opt, iter, conv, skipped, obs, pops, hist>>
 
@@ -130,7 +152,7 @@ Finish ==
   /\ touched' = newt /\ newt' = {} /\ iter' = iter + 1 /\ conv' = ~chg /\ phase' = "idle"
   /\ hist' = IF Record THEN Append(hist, [pops |-> pops, exact |-> {m \in G.msgs : Exact(m)},
                                           touched |-> newt, iter |-> iter + 1, conv |-> ~chg]) ELSE hist
-  /\ UNCHANGED <<G, opt, inc, chg, obs, pops>>
+  /\ UNCHANGED <<G, opt, inc, tgt, lag, chg, obs, pops>>
 EndIter == Finish /\ ~skipped /\ skipped' = FALSE
 \* the same, for an iteration in which local convergence left some messages alone
 LocalConvergenceSkip == Finish /\ skipped /\ skipped' = FALSE
@@ -139,11 +161,15 @@ LocalConvergenceSkip == Finish /\ skipped /\ skipped' = FALSE
 PhaseMsgs(k) == {m \in G.msgs : Kind(m[1]) = k}
 HyperIterate ==
   /\ opt.flav = "hyper" /\ phase = "idle" /\ ~conv /\ iter < MaxIter
-  /\ LET k1 == IF opt.first = "IT" THEN "I" ELSE "T"
-         k2 == IF opt.first = "IT" THEN "T" ELSE "I"
-         inc1 == [m \in G.msgs |-> IF m \in PhaseMsgs(k1) THEN StepInc(G, inc, m) ELSE inc[m]]
-         inc2 == [m \in G.msgs |-> IF m \in PhaseMsgs(k2) THEN StepInc(G, inc1, m) ELSE inc1[m]]
-     IN /\ inc' = inc2 /\ chg' = (inc2 # inc) /\ conv' = (inc2 = inc)
+  /\ \E k1 \in {IF opt.first = "IT" THEN "I" ELSE "T"} : \E k2 \in {IF opt.first = "IT" THEN "T" ELSE "I"} :
+     \E u1 \in {[m \in PhaseMsgs(k1) |-> Upd(inc, m)]} :
+     \E inc1 \in {[m \in G.msgs |-> IF m \in PhaseMsgs(k1) THEN u1[m].inc ELSE inc[m]]} :
+     \E u2 \in {[m \in PhaseMsgs(k2) |-> Upd(inc1, m)]} :
+     \E u \in {[m \in G.msgs |-> IF m \in PhaseMsgs(k1) THEN u1[m] ELSE u2[m]]} :
+     \E moved \in {\E m \in G.msgs : u[m].moved} :
+        /\ inc' = [m \in G.msgs |-> u[m].inc] /\ tgt' = [m \in G.msgs |-> u[m].tgt]
+        /\ lag' = [m \in G.msgs |-> u[m].lag]
+        /\ chg' = moved /\ conv' = ~moved
   /\ iter' = iter + 1 /\ obs' = [k |-> "none"]
   /\ hist' = IF Record THEN Append(hist, [pops |-> <<>>, exact |-> {m \in G.msgs : inc'[m] = G.up[m]},
                                           touched |-> {}, iter |-> iter + 1, conv |-> conv']) ELSE hist
@@ -154,12 +180,12 @@ HyperIterate ==
 Contract ==
   /\ phase = "idle" /\ obs.k = "none"
   /\ obs' = [k |-> "Z", exact |-> AllExact]
-  /\ UNCHANGED <<G, opt, inc, touched, newt, phase, iter, conv, chg, skipped, pops, hist>>
+  /\ UNCHANGED <<G, opt, inc, tgt, lag, touched, newt, phase, iter, conv, chg, skipped, pops, hist>>
 \* index / tensor marginal at node a: reads the messages into a
 Marginal(a) ==
   /\ phase = "idle" /\ obs.k = "none"
   /\ obs' = [k |-> "marg", node |-> a, exact |-> \A m \in Into(a) : Exact(m)]
-  /\ UNCHANGED <<G, opt, inc, touched, newt, phase, iter, conv, chg, skipped, pops, hist>>
+  /\ UNCHANGED <<G, opt, inc, tgt, lag, touched, newt, phase, iter, conv, chg, skipped, pops, hist>>
 
 UpdateSequentialA == \E u \in touched : UpdateSequential(u)
 MarginalA == \E a \in G.nodes : Marginal(a)
@@ -174,11 +200,11 @@ Wave == \A m \in G.msgs :
           /\ (StepInc(G, inc, m) = G.up[m]) <=> (\A k \in G.deps[m] : Exact(k))
           /\ G.deps[m] = {} => StepInc(G, inc, m) = G.up[m]
 \* Stable: messages only ever absorb more; an exact message stays exact under any further update
-Stable == [][\A m \in G.msgs : inc[m] \subseteq inc'[m] /\ (Exact(m) => inc'[m] = G.up[m])]_vars
+Stable == [][\A m \in G.msgs : inc[m] \subseteq inc'[m] /\ (Exact(m) => inc'[m] = G.up[m] /\ lag'[m] = 0)]_vars
 \* between iterations every message is either scheduled or consistent with the messages it reads
 Consistent ==
   (phase = "idle" /\ iter > 0 /\ opt.flav # "hyper") =>
-     \A m \in G.msgs : Scheduled(m, touched) \/ inc[m] = StepInc(G, inc, m)
+     \A m \in G.msgs : Scheduled(m, touched) \/ (inc[m] = StepInc(G, inc, m) /\ lag[m] = 0)
 \* after n iterations every message has n more exact layers than initially, whatever the schedule
 WaveBound ==
   phase = "idle" => \A m \in G.msgs : LevelOfInc(G, m, inc[m]) >= Min2(G.h[m], L0 + iter)
@@ -186,6 +212,8 @@ WaveBound ==
 ExactAtFixpoint ==
   /\ conv => AllExact
   /\ (phase = "idle" /\ iter > 0 /\ opt.flav # "hyper" /\ touched = {}) => AllExact
+\* what run() promises when it reports convergence
+ConvergedExact == conv => AllExact
 \* the fixpoint (all exact) and the number of iterations needed do not depend on the order
 ScheduleIndependent ==
   /\ iter <= IterBound(G, L0)
